@@ -4,6 +4,7 @@ import (
 	"encoding/json"
 	"fmt"
 	"go/token"
+	"go/types"
 	"os"
 	"path/filepath"
 	"regexp"
@@ -56,43 +57,46 @@ type Exception struct {
 
 // C is the per-run checker context.
 type C struct {
-	P           *Program
-	Prop        string
-	Tier        string
-	Obs         []*Obligation
-	Counts      map[string]int // named instance counts
-	Mins        map[string]int // reviewed minimums for the counts
-	Notes       []string
-	Facts       *Facts
-	known       []Finding
-	excepted    []*Exception
-	seen        map[string]bool
-	la          *lockAnalysis
-	retAliasMemo map[*ssa.Function]map[int]string
-	inPlaceMemo  map[string]string
-	mwrapMemo    map[*ssa.Function]*[3]string
-	preMemo     map[*ssa.Function][]dfact
-	preBusy     map[*ssa.Function]bool
-	bce         map[string]bool
-	bceErr      error
-	aliasMemo   map[string]string
-	scope       []string
-	wkMemo      map[*ssa.Function][]int
-	hookOwner   *C
-	rllMemo     map[string]int
-	rgpMemo     map[string]int
-	viaMemo     map[string]bool
-	fatMemo     map[string]bool
-	wrapMemo    map[*ssa.Function][4]int
-	wrapMeth    map[*ssa.Function]string
-	fab         map[*ssa.Parameter][]*ssa.Function
-	fabArgOnly  map[*ssa.Function]bool
-	rlgMemo     map[string]int
-	parMemo     map[*ssa.Function]map[string]int
-	parBusy     map[*ssa.Function]bool
-	applyLoopFn *ssa.Function
-	sumMemo     map[string]Set
-	ctxMemo     map[string]bool
+	P               *Program
+	Prop            string
+	Tier            string
+	Obs             []*Obligation
+	Counts          map[string]int // named instance counts
+	Mins            map[string]int // reviewed minimums for the counts
+	Notes           []string
+	Facts           *Facts
+	known           []Finding
+	excepted        []*Exception
+	seen            map[string]bool
+	la              *lockAnalysis
+	retAliasMemo    map[*ssa.Function]map[int]string
+	inPlaceMemo     map[string]string
+	mwrapMemo       map[*ssa.Function]*[3]string
+	enumMemo        map[*types.Named][3]int64
+	storedTypesMemo map[string]bool
+	freshUse        *ssa.BasicBlock // the block of the store a freshness question is asked for (phi edges that cannot reach it are skipped)
+	preMemo         map[*ssa.Function][]dfact
+	preBusy         map[*ssa.Function]bool
+	bce             map[string]bool
+	bceErr          error
+	aliasMemo       map[string]string
+	scope           []string
+	wkMemo          map[*ssa.Function][]int
+	hookOwner       *C
+	rllMemo         map[string]int
+	rgpMemo         map[string]int
+	viaMemo         map[string]bool
+	fatMemo         map[string]bool
+	wrapMemo        map[*ssa.Function][4]int
+	wrapMeth        map[*ssa.Function]string
+	fab             map[*ssa.Parameter][]*ssa.Function
+	fabArgOnly      map[*ssa.Function]bool
+	rlgMemo         map[string]int
+	parMemo         map[*ssa.Function]map[string]int
+	parBusy         map[*ssa.Function]bool
+	applyLoopFn     *ssa.Function
+	sumMemo         map[string]Set
+	ctxMemo         map[string]bool
 }
 
 func (c *C) Count(name string, n int) { c.Counts[name] += n }
